@@ -600,7 +600,15 @@ func evalPending(b *batchStats, first []byte) {
 		step(p, first)
 		frames := [][]byte{first, a1.data}
 		b.Sequences++
+		// what the decoder allocates for a frame is bounded by the frame, not by a number the peer announced:
+		// a header may ask for 2^31-1 attachments, and memory exhaustion kills the whole process
+		var m0, m1 runtime.MemStats
+		runtime.ReadMemStats(&m0)
 		r1 := step(p, a1.data)
+		runtime.ReadMemStats(&m1)
+		if d := m1.TotalAlloc - m0.TotalAlloc; d > allocBoundPerFrame {
+			b.violate(allocKey, frames, "", fmt.Sprintf("Parser.Add allocated %d bytes for an attachment frame of %d bytes after the header %q (bound %d)", d, len(a1.data), first, allocBoundPerFrame))
+		}
 		switch r1.kind {
 		case stepPanic:
 			b.Evaluations++
@@ -643,6 +651,11 @@ func evalPending(b *batchStats, first []byte) {
 		}
 	}
 }
+
+const (
+	allocBoundPerFrame = 16 << 20
+	allocKey           = "memory: a frame makes the decoder allocate far more than the frame (the attachment count announced by the peer drives the allocation)"
+)
 
 const wedgeKey = "wedge in Add: attachment count of 2^63 or more becomes a negative int (packet can never complete, maxAttachments bypassed)"
 
@@ -729,7 +742,7 @@ func templates(L int) []string {
 	phRev := func(num string) string { return `{"num":` + num + `,"_placeholder":true}` }
 
 	// (a) attachment counts
-	counts := []string{"0", "1", "2", "10000000000", "9223372036854775808", "18446744073709551615", "-1", "1e3",
+	counts := []string{"0", "1", "2", "20000000", "1000000000", "2147483647", "10000000000", "9223372036854775808", "18446744073709551615", "-1", "1e3",
 		"9223372036854775807", "18446744073709551616", "4294967296", "2147483648", "00", "01", "+1", " 1", ""}
 	for _, c := range counts {
 		add("5" + c + `-["a",` + ph("0") + `]`)
